@@ -39,6 +39,7 @@ def build(repo, tier):
                         'saturation loop (Robinson): decided by the bounded stand-in only - exhaustive up to the stated size, random beyond, truth-table oracle, every proof replayed on the real StatefulInterpreter',
                         'soundness direction (a returned proof that replays proves a tautology) rests on C01/C08/C10'],
                     functions=[(TAUT_FILE, 'Tautology.prove_tautology')] + dfn, notes=notes)
+    spec.level = 'exploration'
 
     def standin(tier, seed):
         try:
@@ -49,7 +50,14 @@ def build(repo, tier):
         if w is not None:
             viol.append({'name': 'C09/bounded/prover against the truth-table oracle', 'status': 'refuted-bounded', 'backend': 'bounded run on the real code', 'model': None,
                          'detail': w.get('failed_clause', '') + ' on ' + w.get('pattern', ''), 'confirmed': True, 'replay': w})
-        return [{'bounded': {'kind': 'prove_tautology and the four normal-form stages on every propositional pattern over phi0..phi2, bot, top, ->, ~, \\/, /\\ '
+        from contracts.tauto import LAST
+        cov = {'evaluations': LAST.get('evaluations', n), 'distinct_nontrivial': LAST.get('distinct_nontrivial', 0),
+               'rule': 'cases = propositional patterns (exhaustive up to the size bound over phi0..phi2, bot, top, ->, ~, \\/, /\\; then random / clause-shaped / all-trivial-clause families over four '
+                       'variables); each is classified by prove_tautology and compared with its truth table, its proof replayed; distinct = distinct printed pattern, non-trivial = has at least one connective. '
+                       'The saturation loop is additionally run on clause sets against brute-force SAT (not counted here)',
+               'samples': [{'pattern': x[0], 'truth_table': x[1]} for x in LAST.get('samples', []) if isinstance(x, list) and len(x) == 2] or [{'note': 'no sample recorded'}],
+               'exhaustive': False}
+        return [{'coverage': cov, 'bounded': {'kind': 'prove_tautology and the four normal-form stages on every propositional pattern over phi0..phi2, bot, top, ->, ~, \\/, /\\ '
                                      f'with at most {ms} nodes, and {nr} random patterns (depth <= {dp}, one third of them conjunctions of clauses over four variables): classification vs truth table, advertised conclusion literally the pattern / its negation, '
                                      'proof replayed on the real StatefulInterpreter, stage outputs equivalent, in shape, with proofs of both implications; plus the saturation loop alone on '
                                      f'{4 * nr} clause sets over four variables against brute-force satisfiability', 'programs': n,
